@@ -80,7 +80,7 @@ def parse_harness_output(out):
     return r
 
 
-def run_harness(crate_dir, slot, harness, timeout, mem_gb=14, extra=None):
+def run_harness(crate_dir, slot, harness, timeout, mem_gb=None, extra=None):
     tdir = os.path.join(BUILD, crate_tag(crate_dir) + '-t%d' % slot)
     os.makedirs(BUILD, exist_ok=True)
     logp = os.path.join(BUILD, 'log-%s-%s.txt' % (crate_tag(crate_dir), harness))
@@ -114,7 +114,7 @@ class SlotPool:
         self.q.put(i)
 
 
-def run_many(crate_dir, harnesses, timeout, jobs=6, mem_gb=14, extra=None):
+def run_many(crate_dir, harnesses, timeout, jobs=6, mem_gb=None, extra=None):
     """run harnesses in parallel, each in a build slot of its own; returns list of result dicts"""
     prepare_crate(crate_dir)
     pool = SlotPool(jobs)
@@ -140,7 +140,7 @@ def run_many(crate_dir, harnesses, timeout, jobs=6, mem_gb=14, extra=None):
 def playback_values(crate_dir, slot, harness, timeout):
     """re-run a failing harness with concrete playback and return
     [ {'kind': 'fail'|'cover', 'vals': [[bytes...]...]} ... ] in the order Kani printed them"""
-    r = run_harness(crate_dir, slot, harness, timeout, mem_gb=40, extra=['-Z', 'concrete-playback', '--concrete-playback=print'])
+    r = run_harness(crate_dir, slot, harness, timeout, mem_gb=None, extra=['-Z', 'concrete-playback', '--concrete-playback=print'])
     out = open(r['log'], 'rb').read().decode('utf-8', 'replace')
     tests = []
     for m in re.finditer(r'fn (kani_concrete_playback_\w+)\(\) \{(.*?)\n\}', out, re.S):
